@@ -1,0 +1,17 @@
+"""Verification hooks (inactive unless the environment variable SYMFC_VERIF=1 is set).
+
+They only let an external harness force size-triggered code paths (batch counts,
+eigen-solver switches) on small inputs; with the guard off every function returns
+the value it was given.
+"""
+
+import os
+
+
+def verif_int(name: str, default):
+    """Return int(os.environ[name]) when SYMFC_VERIF=1 and the variable is set."""
+    if os.environ.get("SYMFC_VERIF") == "1":
+        value = os.environ.get(name)
+        if value:
+            return int(value)
+    return default
